@@ -618,7 +618,7 @@ def wl_hashes(ctx, rng, idx, n):
 
     keys = [bytes(16), bytes(range(16)), b"\xff" * 16, b"0123456789ABCDEF"] + [rng.getrandbits(128).to_bytes(16, "big") for _ in range(2)]
     seeds = [0, 1, 0xFFFFFFFF, 0xFBA4C795, 0x7FFFFFFF, 0x80000000, 49 * 0xFBA4C795 + 0xFFFFFFFF, rng.getrandbits(32), rng.getrandbits(32)]
-    reps = {"quick": 1, "thorough": 40}[ctx.tier]
+    reps = {"quick": 3, "thorough": 100}[ctx.tier]
     for rep in range(reps):
         for ln in range(0, 71):
             for style in range(4):
@@ -655,8 +655,8 @@ def wl_golomb(ctx, rng, idx, n):
     from buidl import compactfilter as cf
 
     xs = [0, 1, 2, 2**19 - 2, 2**19 - 1, 2**19, 2**19 + 1, 2**20 - 1, 2**20, 2**20 + 1, 2**21, 3 * 2**19 - 1, 2**25, 2**26 - 1, fl.GCS_M - 1, fl.GCS_M, fl.GCS_M + 1]
-    xs += [rng.randrange(2**26) for _ in range({"quick": 120, "thorough": 6000}[ctx.tier])]
-    xs += [rng.randrange(2**20) for _ in range({"quick": 60, "thorough": 3000}[ctx.tier])]
+    xs += [rng.randrange(2**26) for _ in range({"quick": 600, "thorough": 20000}[ctx.tier])]
+    xs += [rng.randrange(2**20) for _ in range({"quick": 300, "thorough": 10000}[ctx.tier])]
     for x in xs:
         o = outcome(cf.encode_golomb, x, fl.GCS_P)
         if o[0] != "ok":
@@ -816,10 +816,10 @@ def wl_filters(ctx, rng, idx, n):
         drive_filter(ctx, rng, key, [bytes.fromhex(s) for s in scripts], 20, tag="vector:bip158")
     sizes = [0, 1, 2, 3, 5, 10, 30, 100, 252, 253, 254, 500, 1000, 2000]
     mine = [s for i, s in enumerate(sizes) if i % n == idx or (i + 7) % n == idx]
-    mine += [rng.randrange(0, 60) for _ in range(6 if quick else 150)]
-    mine += [rng.randrange(60, 400) for _ in range(1 if quick else 30)]
+    mine += [rng.randrange(0, 60) for _ in range(24 if quick else 600)]
+    mine += [rng.randrange(60, 400) for _ in range(4 if quick else 120)]
     if not quick:
-        mine += [rng.randrange(400, 2001) for _ in range(6)] + [2000]
+        mine += [rng.randrange(400, 2001) for _ in range(20)] + [2000, 1999]
     for sz in mine:
         if ctx.out_of_time():
             return
